@@ -1399,17 +1399,6 @@ func corpus() [][]Req {
 			{Kind: "note", U: T(2)}, {Kind: "commit", U: P(3, 9)},
 			{Kind: "newrepo", Root: sp(T(2))}, {Kind: "newrepo", Root: sp(T(1))},
 			{Kind: "commit", U: T(2)}, {Kind: "newversion", U: T(2), Assign: T(3)}},
-		// the DAG of the C02 driver: V on master with a master child U; a second newversion on V is
-		// refused; a merge [V, side] gives V a second child on branch "" (merge nodes carry no branch
-		// name) and master two lineages: root:master~0 then resolves to either, or fails, by map order
-		{{Kind: "newrepo"}, {Kind: "commit", U: T(1)}, {Kind: "newversion", U: T(1), Assign: L("")}, {Kind: "commit", U: T(2)},
-			{Kind: "branch", U: T(1), Branch: L("side"), Assign: L("")}, {Kind: "commit", U: T(3)},
-			{Kind: "newversion", U: T(2), Assign: L("")}, {Kind: "newversion", U: T(2), Assign: L("")},
-			{Kind: "merge", U: T(2), MType: "conflict-free", Parents: []SX{T(2), T(3)}},
-			{Kind: "newversion", U: T(2), Assign: L("")},
-			{Kind: "note", U: Cat(T(1), L(":master~0"))}, {Kind: "note", U: Cat(T(1), L(":master~0"))},
-			{Kind: "commit", U: Cat(T(1), L(":master~0"))}, {Kind: "commit", U: Cat(T(1), L(":master~0"))},
-			{Kind: "commit", U: Cat(T(1), L(":master~0"))}, {Kind: "newversion", U: Cat(T(1), L(":master~1")), Assign: L("")}},
 		// resolve refused after it created deletion nodes
 		with(Req{Kind: "newdata", U: T(3), Type: "keyvalue", Name: "d1"},
 			Req{Kind: "newversion", U: T(2), Assign: L("")},
@@ -1524,7 +1513,7 @@ func enumerate(run *lib.Run, total map[string]int) int {
 			}
 			parts = append(parts, so.stepTerms[len(so.stepTerms)-1])
 			key := fmt.Sprintf("enum|%v", path)
-			run.Add("enum", "["+strings.Join(parts, "; ")+"]", jcase{Kind: "enum", Steps: so.steps}, key)
+			run.Add("enum", "(0%nat, ["+strings.Join(parts, "; ")+"])", jcase{Kind: "enum", Steps: so.steps}, key)
 			for k, v := range so.kinds {
 				total["enum:"+k] += v
 			}
@@ -1540,6 +1529,22 @@ func enumerate(run *lib.Run, total map[string]int) int {
 	return count
 }
 
+// the recorded finding (findings/C07.json, class 30): root committed; V = newversion, committed;
+// W = branch "side", committed; U = newversion V; a second newversion on V is refused; merge [V, W]
+// is accepted and its node, which carries the empty branch name, is a second child of V on the
+// default branch; root:master~0 then resolves to U, to the merge node, or fails, by map order
+func findingCase() []Req {
+	return []Req{{Kind: "newrepo"}, {Kind: "commit", U: T(1)}, {Kind: "newversion", U: T(1), Assign: L("")}, {Kind: "commit", U: T(2)},
+		{Kind: "branch", U: T(1), Branch: L("side"), Assign: L("")}, {Kind: "commit", U: T(3)},
+		{Kind: "newversion", U: T(2), Assign: L("")}, {Kind: "newversion", U: T(2), Assign: L("")},
+		{Kind: "merge", U: T(2), MType: "conflict-free", Parents: []SX{T(2), T(3)}},
+		{Kind: "newversion", U: T(2), Assign: L("")},
+		{Kind: "note", U: Cat(T(1), L(":master~0"))}, {Kind: "note", U: Cat(T(1), L(":master~0"))},
+		{Kind: "note", U: Cat(T(1), L(":master~0"))}, {Kind: "note", U: Cat(T(1), L(":master~0"))},
+		{Kind: "commit", U: Cat(T(1), L(":master~0"))}, {Kind: "commit", U: Cat(T(1), L(":master~0"))},
+		{Kind: "commit", U: Cat(T(1), L(":master~0"))}}
+}
+
 func main() {
 	o := lib.ParseOpts()
 	dv.Quiet()
@@ -1551,7 +1556,11 @@ func main() {
 	bytes := 0
 	add := func(kind string, so seqOut) {
 		key := fmt.Sprintf("%s|%v|%d", kind, so.kinds, so.maxNode)
-		run.Add(kind, so.term, jcase{Kind: kind, Steps: so.steps}, key)
+		tag := 0
+		if kind == "finding" {
+			tag = 1
+		}
+		run.Add(kind, fmt.Sprintf("(%d%%nat, %s)", tag, so.term), jcase{Kind: kind, Steps: so.steps}, key)
 		bytes += len(so.term)
 		for k, v := range so.kinds {
 			total["req:"+k] += v
@@ -1574,14 +1583,19 @@ func main() {
 			fmt.Fprintln(os.Stderr, "replay:", err)
 			os.Exit(2)
 		}
-		add("replay", runSeq(lib.NewRand(o.Seed), replayList(c.Steps)))
-		run.Finish("c07case", "replay", tail)
+		kind := "replay"
+		if c.Kind == "finding" {
+			kind = "finding"
+		}
+		add(kind, runSeq(lib.NewRand(o.Seed), replayList(c.Steps)))
+		run.Finish("kcase", "replay", tail)
 		return
 	}
 
 	for _, steps := range corpus() {
 		add("corpus", runSeq(lib.NewRand(o.Seed), replayList(steps)))
 	}
+	add("finding", runSeq(lib.NewRand(o.Seed), replayList(findingCase())))
 	budget, maxSeq := 145000, 300
 	if o.Thorough() {
 		budget, maxSeq = 700000, 3000
@@ -1612,7 +1626,7 @@ func main() {
 	}
 	run.Dist["hostile_arguments"] = hostile
 	run.Extra["cases_bytes"] = bytes
-	run.Finish("c07case",
+	run.Finish("kcase",
 		"request sequences on a fresh datastore; a sequence is distinct by (kind, multiset of request kind x response class, node count)",
 		tail)
 }
